@@ -7,7 +7,7 @@ from abc import ABC, abstractmethod
 import math
 from pathlib import Path
 
-from typing import Optional, Union, Sequence, List, IO, Iterator, Mapping
+from typing import Dict, Optional, Union, Sequence, List, IO, Iterator, Mapping
 from collections import Counter, defaultdict
 from dataclasses import dataclass
 import logging
@@ -329,11 +329,13 @@ class PedReader:
 
     def samples(self) -> Sequence[str]:
         """Return a list of all mentioned individuals"""
-        samples = set()
+        # each individual once, in the order of the PED file (not a set: its order
+        # changes with the hash seed and the order of the samples reaches the output)
+        samples: Dict[str, None] = {}
         for trio in self.trios:
             if trio.child is None or trio.mother is None or trio.father is None:
                 continue
-            samples.add(trio.father)
-            samples.add(trio.mother)
-            samples.add(trio.child)
+            samples[trio.father] = None
+            samples[trio.mother] = None
+            samples[trio.child] = None
         return list(samples)
